@@ -398,7 +398,7 @@ pub fn op(p: &GenProfile) -> BoxedStrategy<Op> {
         (w.scan, scan_spec(weak).prop_map(Op::Scan).boxed()),
         (
             w.iter_open,
-            (bound_spec(), bound_spec(), prop_oneof![3 => Just(0u8), 2 => 2u8..8])
+            (bound_spec(), bound_spec(), prop_oneof![3 => Just(0u8), 2 => Just(1u8), 2 => 2u8..8])
                 .prop_map(|(lo, hi, snap)| Op::IterOpen { lo, hi, snap })
                 .boxed(),
         ),
